@@ -19,7 +19,7 @@ PROPERTY = {
     'outside': ['arbitrary unicode scalars, anchors/aliases, block-style collections, multi-line block scalars', 'value-less !del (removes the key by design)',
                 'keys equal to attribute names of the node classes', 'allow_new=False in a first document (error by design)'],
     'per_split_timeout': {'quick': 600, 'thorough': 1800},
-    'wall_budget': {'quick': 900, 'thorough': 3400},
+    'wall_budget': {'quick': 1500, 'thorough': 7000},
 }
 
 LITERAL = [None, '!force', '!weak', '!del', '!merge', '!new', '!unsafe', "!metadata{{ 'note': [1, 'x'], 'priority': 1 }}"]
